@@ -131,12 +131,44 @@ pub(crate) fn c17_code_closed_form_d3() {
     code_vs_closed_form(3);
 }
 
-// @harness c17_code_closed_form_d30 tier=thorough kind=complete timeout=7200 heavy=1
-// @ob same, for every well-formed mask of the type (depth <= 30 = the representation's whole domain)
+fn pair_d30() -> (u64, u64, bool, Type, Type) {
+    let (ma, mb) = (any_wf_mask(30), any_wf_mask(30));
+    let same = vk::any_bool();
+    let a = ty("A", ma);
+    let b = if same { ty("A", mb) } else { ty("B", mb) };
+    (ma, mb, same, a, b)
+}
+// @harness c17_intersect_closed_form_d30 tier=thorough kind=complete timeout=5400 heavy=1
+// @ob Type::intersect == closed form for every pair of well-formed masks of the type (depth <= 30 = the representation's whole domain)
 #[kani::proof]
 #[kani::unwind(33)]
-pub(crate) fn c17_code_closed_form_d30() {
-    code_vs_closed_form(30);
+pub(crate) fn c17_intersect_closed_form_d30() {
+    let (ma, mb, same, a, b) = pair_d30();
+    let r = a.intersect(&b);
+    match (&r, spec_intersect(same, ma, mb)) {
+        (Some(t), Some(m)) => assert!(t.modifiers.mask == m, "intersect == closed form (mask a|b)"),
+        (None, None) => {}
+        _ => assert!(false, "intersect is None exactly when bases or list depths differ"),
+    }
+    core::mem::forget((a, b, r));
+}
+// @harness c17_subtype_closed_form_d30 tier=thorough kind=complete timeout=5400 heavy=1
+// @ob Type::is_scalar_only_subtype == closed form for every pair of well-formed masks (depth <= 30)
+#[kani::proof]
+#[kani::unwind(33)]
+pub(crate) fn c17_subtype_closed_form_d30() {
+    let (ma, mb, same, a, b) = pair_d30();
+    assert!(a.is_scalar_only_subtype(&b) == spec_subtype(same, ma, mb), "is_scalar_only_subtype == closed form");
+    core::mem::forget((a, b));
+}
+// @harness c17_eq_ign_closed_form_d30 tier=thorough kind=complete timeout=5400 heavy=1
+// @ob Type::equal_ignoring_nullability == closed form for every pair of well-formed masks (depth <= 30)
+#[kani::proof]
+#[kani::unwind(33)]
+pub(crate) fn c17_eq_ign_closed_form_d30() {
+    let (ma, mb, same, a, b) = pair_d30();
+    assert!(a.equal_ignoring_nullability(&b) == spec_eq_ign(same, ma, mb), "equal_ignoring_nullability == closed form");
+    core::mem::forget((a, b));
 }
 
 // ---- lattice laws over the closed forms (pure u64; complete) -------------------------------------
